@@ -202,6 +202,18 @@ CONTEXTS = [
     ("number-close", "M3,4 L1,{a}{s}z", NUMS, SEPS, [""]),
     ("close-command", "M3,-2 L7,5 {a}{s}{b}", ["z", "Z"], SEPS, ["l1,1", "M1,1", "z", "h3", "t1,1", "a5,8 30 0 1 7,5"]),
     ("leading-trailing", "{s}M3,-2 L7,{a}{b}", NUMS, WSPS + [","], WSPS + [","]),
+    # the boundary between two argument GROUPS of one relative command, away from the origin (the second group is
+    # relative to the end of the first: whatever the lexer does at that boundary - look-ahead, separator-free signs
+    # and dots - must not change which point the offsets are added to)
+    ("group-group-rel-l", "M10,20 l1,{a}{s}{b},4", NUMS, SEPS, NUMS),
+    ("group-group-rel-m", "M10,20 m1,{a}{s}{b},4 l1,1", NUMS, SEPS, NUMS),
+    ("group-group-rel-c", "M10,20 c1,1 2,2 3,{a}{s}{b},1 2,2 3,3", NUMS, SEPS3, NUMS),
+    ("group-group-rel-t", "M10,20 q1,5 3,3 t1,{a}{s}{b},4", NUMS, SEPS3, NUMS),
+    ("group-group-rel-s", "M10,20 s1,5 3,{a}{s}{b},3 2,2", NUMS, SEPS3, NUMS),
+    # (no exponent spellings before the boundary here: glued to the next number they read as 7e10 and beyond, where
+    # the chord of the SECOND arc, 7 units long, is lost in the rounding of its end points - not a parsing matter)
+    ("group-group-rel-a", "M10,20 a5,8 30 0 1 7,{a}{s}{b},8 30 0 1 7,5", [n for n in NUMS if "e" not in n.lower()], SEPS3, NUMS),
+    ("group-group-rel-v", "M10,20 v{a}{s}{b} 3 l1,1", NUMS, SEPS3, NUMS),
 ]
 
 
